@@ -9,6 +9,9 @@ FieldsOf(n, lvl) == [1..n -> [p : Params, fa : IF lvl = "debug_fields" THEN {"no
 UseSet(n) == [f : 1..n, how : {"name", "pos", "alias", "posalias", "expr", "shadow", "shadowto"}, tr : UseTraits]
 UsesOf(n) == {<<>>} \cup {<<u>> : u \in UseSet(n)}
              \cup (IF MaxUses >= 2 THEN {<<u, v>> : u \in UseSet(n), v \in UseSet(n)} ELSE {})
+             \* always: two DIFFERENT fields by name, in both orders (a scan that stops at the first placeholder whose
+             \* field is not generic loses the bound of a later one)
+             \cup {p \in {<<u, v>> : u \in UseSet(n), v \in UseSet(n)} : p[1].how = "name" /\ p[2].how = "name" /\ p[1].f # p[2].f}
 Levels == {"struct", "variant", "debug_fields", "shared_default", "shared_wrap"}
 
 \* star: the literal starts with `{s:.*}` (explicit value, precision from the next positional argument) - every later
